@@ -5,4 +5,4 @@ PROP = "C05"
 run, search, replay = make(PROP, ('C05:',),
                            'Oracle C05: a decoder written in Python only from Architecture.md / types.rst is run on the raw bytes and must recover the value; every compound or dynamic part on an 8-byte slot relative to the object.',
                            [],
-                           ['reference encodings (relative offset, null value, member index) are decoded by the Python oracle and the executable model only'])
+                           ['the reference encoding itself is a theorem (C05_ref_slot_encoding, decoded by C08_alias / C08_null) tied through the rg component; where reference slots sit inside dynamic structs and arrays is decoded by the Python oracle and the executable model only'], rg=True)
